@@ -96,8 +96,10 @@ def _compile(s):
 _code_cache = {}
 
 
-def ev(s, env, ns=NS):
-    """Evaluate string s at env; None if not a finite real number there."""
+def ev(s, env, ns=NS, complex_ok=False):
+    """Evaluate string s at env; None if not a finite real number there (complex_ok: a finite complex value is returned
+    as mpc - used for intermediate parameter values, so that substitution is followed through the complex plane the way the
+    symbolic substitution f(p(theta)) is)."""
     if 'class' in s or s.strip() in ('nan', ''):
         return None
     code = _code_cache.get(s)
@@ -120,6 +122,8 @@ def ev(s, env, ns=NS):
         return None
     if isinstance(v, mp.mpc):
         if abs(v.imag) > mp.mpf(10) ** -20 * (1 + abs(v.real)):
+            if complex_ok and mp.isfinite(v.real) and mp.isfinite(v.imag):
+                return v
             return None
         v = v.real
     try:
@@ -186,8 +190,8 @@ def apply_chain(chain, theta):
         for k, v in step.items():
             if k not in th:
                 continue
-            val = ev(v, th, NS_MAP)
-            if val is None or val == 'syntax':
+            val = ev(v, th, NS_MAP, complex_ok=True)
+            if val is None or (isinstance(val, str) and val == 'syntax'):
                 return None
             new[k] = val
         th = new
